@@ -651,6 +651,7 @@ def _window_manager(P, R):
         # the start function spliced in: one value per window type, each computed from the event's timestamp, the tumbling one
         # rounded down to a multiple of the width
         arms = list(ssym[1]) if ssym[0] == "phi" else [ssym]
+        arms = [A.inline_sym(P, a) for a in arms]      # `aligned_window_start(t, w)` reads as `(t / w) * w`
         aligned = all("metadata.timestamp" in fmt_sym(a, maxdepth=12) for a in arms) and \
             any(x[0] == "bin" and x[1] in ("Mul", "MulWithOverflow") and strip(x[2])[0] == "bin" and strip(x[2])[1] == "Div" and fmt_sym(strip(x[2])[3]) == fmt_sym(x[3]) for a in arms for x in walk(a))
     if aligned and new_adds and pushes and all(f.dominates(nw.bb, x.bb) for x in new_adds + pushes):
